@@ -4,7 +4,7 @@
 (*   write    abstract keysets for the real writers                                            *)
 (*   wenc     EncryptedKeyset values for WriteEncrypted                                        *)
 (*   rbin     octet strings for BinaryReader.Read: every spelling of the read keysets           *)
-(*   rsmall   every octet string of length 0..3 [0..4] over an alphabet of meaningful octets     *)
+(*   rsmall   every octet string of length 0..3 [0..5] over an alphabet of meaningful octets     *)
 (*   rjson    JSON values (with their text) for JSONReader.Read                                 *)
 (*   renc     EncryptedKeyset spellings, binary and JSON, for ReadEncrypted                      *)
 (*   hread    artifacts for keyset.ReadWithAssociatedData / insecurecleartextkeyset.Read          *)
@@ -24,7 +24,7 @@ HJson(lab, enc, ad, shape, v) == [op |-> "hread", fmt |-> "json", lab |-> lab, e
                                   text |-> BytesToHex(JShapeText(shape, v))]
 
 RKs == ReadKeysets(Thorough)
-EncKs == <<RKs[1], RKs[2]>>
+EncKs == IF Thorough THEN <<RKs[1], RKs[2], RKs[4], RKs[6]>> ELSE <<RKs[1], RKs[2]>>
 Ads == {<<>>, <<97, 100, 0, 255>>}
 
 HreadCases ==
@@ -49,9 +49,9 @@ Cases ==
   CASE Blk = "write"  -> {[op |-> "write", lab |-> c.lab, ks |-> KsOut(c.ks), valid |-> HandleOK(c.ks), secrets |-> HasSecrets(c.ks)] : c \in WriteCases(Thorough)}
     [] Blk = "wenc"   -> UNION {{[op |-> "wenc", lab |-> "enc", e |-> EncOut(e)] : e \in EncValues(RKs[k])} : k \in 1..Len(RKs)}
     [] Blk = "rbin"   -> UNION {{RBin("Read", v) : v \in BinVariants(RKs[k])} : k \in 1..Len(RKs)}
-    [] Blk = "rsmall" -> {RBin("Read", BV("small", b)) : b \in SmallStrings(IF Thorough THEN 4 ELSE 3)}
-                         \cup {RBin("ReadEncrypted", BV("small", b)) : b \in SmallStrings(IF Thorough THEN 3 ELSE 2)}
-    [] Blk = "rjson"  -> UNION {{RJson("Read", v) : v \in JsonVariants(RKs[k])} : k \in 1..Len(RKs)}
+    [] Blk = "rsmall" -> {RBin("Read", BV("small", b)) : b \in SmallStrings(IF Thorough THEN 5 ELSE 3)}
+                         \cup {RBin("ReadEncrypted", BV("small", b)) : b \in SmallStrings(IF Thorough THEN 4 ELSE 2)}
+    [] Blk = "rjson"  -> UNION {{RJson("Read", v) : v \in JsonVariants(RKs[k])} : k \in 1..Len(RKs)} \cup {RJson("Read", v) : v \in EmptyExponentCases(RKs[1])}
     [] Blk = "renc"   -> UNION {UNION {{RBin("ReadEncrypted", v) : v \in EncBinVariants(e)} \cup {RJson("ReadEncrypted", v) : v \in EncJsonVariants(e)}
                                        : e \in EncValues(EncKs[k])} : k \in 1..Len(EncKs)}
     [] Blk = "hread"  -> HreadCases
